@@ -166,6 +166,8 @@ pub fn build<Data: GarnishData>(parse_root: usize, parse_tree: Vec<ParseNode>, d
         });
     }
 
+    validate_parse_tree(parse_root, &parse_tree)?;
+
     let mut nodes: Vec<Option<BuildNode<Data>>> = Vec::with_capacity(parse_tree.len());
     for _ in 0..parse_tree.len() {
         nodes.push(None);
@@ -257,6 +259,87 @@ pub fn build<Data: GarnishData>(parse_root: usize, parse_tree: Vec<ParseNode>, d
     }
 
     Ok(BuildData::new(parse_root, parse_tree, tree_root_jump, instruction_metadata))
+}
+
+/// Checks, in linear time, that `nodes` describes a proper binary tree rooted at `root`
+/// so that the traversal in `build` terminates, never indexes outside of the node list
+/// and visits every node exactly once.
+///
+/// - `root` and every `left`/`right` link refer to an existing node
+/// - the root has no parent and a node's `parent` is the node whose `left`/`right` refers to it
+/// - no node is referred to twice (no shared nodes, no cycles)
+/// - every node is part of the tree, only `Subexpression` nodes that the parser
+///   unlinked as redundant separators (a blank line before the end of a nested expression) may be left over
+fn validate_parse_tree<E: std::error::Error + 'static>(root: usize, nodes: &Vec<ParseNode>) -> Result<(), CompilerError<E>> {
+    match nodes.get(root) {
+        None => Err(CompilerError::new_message(format!(
+            "Invalid parse tree: root index {} is outside of node list with length {}.",
+            root,
+            nodes.len()
+        )))?,
+        Some(node) => match node.get_parent() {
+            None => (),
+            Some(parent) => Err(CompilerError::new_message(format!("Invalid parse tree: root node {} has parent {}.", root, parent)))?,
+        },
+    }
+
+    let mut visited = vec![false; nodes.len()];
+    visited[root] = true;
+    let mut stack = vec![root];
+
+    while let Some(index) = stack.pop() {
+        let (left, right) = match nodes.get(index) {
+            None => Err(CompilerError::new_message(format!("Invalid parse tree: no node at index {}.", index)))?,
+            Some(node) => (node.get_left(), node.get_right()),
+        };
+
+        for child in [left, right].into_iter().flatten() {
+            match (nodes.get(child), visited.get_mut(child)) {
+                (Some(child_node), Some(child_visited)) => {
+                    if child_node.get_parent() != Some(index) {
+                        Err(CompilerError::new_message(format!(
+                            "Invalid parse tree: node {} is a child of node {} but has parent {:?}.",
+                            child,
+                            index,
+                            child_node.get_parent()
+                        ))
+                        .append_token_details(&child_node.get_lex_token()))?;
+                    }
+
+                    if *child_visited {
+                        Err(CompilerError::new_message(format!(
+                            "Invalid parse tree: node {} is referenced more than once, it is shared or part of a cycle.",
+                            child
+                        ))
+                        .append_token_details(&child_node.get_lex_token()))?;
+                    }
+
+                    *child_visited = true;
+                    stack.push(child);
+                }
+                _ => Err(CompilerError::new_message(format!(
+                    "Invalid parse tree: node {} refers to child {} which is outside of node list with length {}.",
+                    index,
+                    child,
+                    nodes.len()
+                )))?,
+            }
+        }
+    }
+
+    for (index, (node, visited)) in nodes.iter().zip(visited.iter()).enumerate() {
+        if !visited && node.get_definition() != Definition::Subexpression {
+            Err(CompilerError::new_message(format!(
+                "Invalid parse tree: {:?} node {} is not part of the tree with root {}, it would be ignored.",
+                node.get_definition(),
+                index,
+                root
+            ))
+            .append_token_details(&node.get_lex_token()))?;
+        }
+    }
+
+    Ok(())
 }
 
 fn handle_parse_node<Data: GarnishData>(
@@ -1085,6 +1168,136 @@ mod tests {
         );
 
         assert!(result.is_err());
+    }
+}
+
+#[cfg(test)]
+mod tree_validation {
+    use crate::build::build::build;
+    use crate::lex::{LexerToken, TokenType, lex};
+    use crate::parse::{Definition, ParseNode, SecondaryDefinition, parse};
+    use garnish_lang_simple_data::SimpleGarnishData;
+
+    fn node(definition: Definition, parent: Option<usize>, left: Option<usize>, right: Option<usize>) -> ParseNode {
+        ParseNode::new(
+            definition,
+            SecondaryDefinition::None,
+            parent,
+            left,
+            right,
+            LexerToken::new("5".to_string(), TokenType::Number, 0, 0),
+        )
+    }
+
+    fn build_nodes(root: usize, nodes: Vec<ParseNode>) -> Result<(), String> {
+        let mut data = SimpleGarnishData::new();
+        build(root, nodes, &mut data).map(|_| ()).map_err(|e| e.get_message().clone())
+    }
+
+    fn build_tokens(tokens: Vec<TokenType>) -> Result<(), String> {
+        let tokens = tokens.into_iter().map(|t| LexerToken::new("5".to_string(), t, 0, 0)).collect();
+        let parsed = parse(&tokens).unwrap();
+        build_nodes(parsed.get_root(), parsed.get_nodes_owned())
+    }
+
+    #[test]
+    fn proper_tree_is_ok() {
+        let nodes = vec![
+            node(Definition::Number, Some(1), None, None),
+            node(Definition::Addition, None, Some(0), Some(2)),
+            node(Definition::Number, Some(1), None, None),
+        ];
+
+        assert_eq!(build_nodes(1, nodes), Ok(()));
+    }
+
+    #[test]
+    fn root_out_of_range_is_error() {
+        let result = build_nodes(1, vec![node(Definition::Number, None, None, None)]);
+
+        assert!(result.unwrap_err().starts_with("Invalid parse tree"));
+    }
+
+    #[test]
+    fn root_with_parent_is_error() {
+        let nodes = vec![node(Definition::Number, Some(1), None, None), node(Definition::Number, None, None, None)];
+
+        assert!(build_nodes(0, nodes).unwrap_err().starts_with("Invalid parse tree"));
+    }
+
+    #[test]
+    fn child_out_of_range_is_error() {
+        let nodes = vec![node(Definition::Number, Some(1), None, None), node(Definition::Addition, None, Some(0), Some(2))];
+
+        assert!(build_nodes(1, nodes).unwrap_err().starts_with("Invalid parse tree"));
+    }
+
+    #[test]
+    fn parent_mismatch_is_error() {
+        let nodes = vec![
+            node(Definition::Number, Some(1), None, None),
+            node(Definition::Addition, None, Some(0), Some(2)),
+            node(Definition::Number, None, None, None),
+        ];
+
+        assert!(build_nodes(1, nodes).unwrap_err().starts_with("Invalid parse tree"));
+    }
+
+    #[test]
+    fn shared_node_is_error() {
+        let nodes = vec![node(Definition::Number, Some(1), None, None), node(Definition::Addition, None, Some(0), Some(0))];
+
+        assert!(build_nodes(1, nodes).unwrap_err().starts_with("Invalid parse tree"));
+    }
+
+    #[test]
+    fn cycle_is_error() {
+        let nodes = vec![
+            node(Definition::Addition, None, None, Some(1)),
+            node(Definition::Addition, Some(0), None, Some(2)),
+            node(Definition::Addition, Some(1), None, Some(1)),
+        ];
+
+        assert!(build_nodes(0, nodes).unwrap_err().starts_with("Invalid parse tree"));
+    }
+
+    #[test]
+    fn unattached_node_is_error() {
+        let nodes = vec![node(Definition::Number, None, None, None), node(Definition::Number, None, None, None)];
+
+        assert!(build_nodes(0, nodes).unwrap_err().starts_with("Invalid parse tree"));
+    }
+
+    #[test]
+    fn adjacent_binary_operators_are_error() {
+        // 5 + + 5
+        let result = build_tokens(vec![
+            TokenType::Number,
+            TokenType::Whitespace,
+            TokenType::PlusSign,
+            TokenType::Whitespace,
+            TokenType::PlusSign,
+            TokenType::Whitespace,
+            TokenType::Number,
+        ]);
+
+        assert!(result.unwrap_err().starts_with("Invalid parse tree"));
+    }
+
+    #[test]
+    fn operator_without_right_operand_is_error() {
+        // 5 + @a
+        let result = build_tokens(vec![TokenType::Number, TokenType::Whitespace, TokenType::PlusSign, TokenType::Whitespace, TokenType::Annotation]);
+
+        assert!(result.unwrap_err().starts_with("Invalid parse tree"));
+    }
+
+    #[test]
+    fn dropped_trailing_subexpression_is_ok() {
+        let tokens = lex("{ 5\n\n}").unwrap();
+        let parsed = parse(&tokens).unwrap();
+
+        assert_eq!(build_nodes(parsed.get_root(), parsed.get_nodes_owned()), Ok(()));
     }
 }
 
